@@ -7,6 +7,7 @@ import CSD.Model.SourceText
 import CSD.Lemmas.PFCIter
 import CSD.Lemmas.IdIter
 import CSD.Lemmas.FM17
+import CSD.Lemmas.RPDACIter
 
 namespace CSD.Props.C13
 open CSD CSD.PFC
@@ -77,5 +78,14 @@ theorem fmindex_range_scan_exact {S : List Str} {L : List FM.Row} {d : FM.Dict} 
     (hd : FM.DictOK S L d) (hml : ∀ s ∈ S, s.length < d.maxlength) (k i : Nat) (h : i + k ≤ S.length) :
     d.drain k { processed := i + 1, scanneable := i + k + 1, last := d.elements }
       = some (((S.drop i).take k).map FM.symsOf) := FM.drain_spec hv hd hml k i k h (Nat.le_refl _)
+
+
+/-! ### RPDAC -/
+
+/-- `StringDictionaryRPDAC::extractTable`: the iterator (`IteratorDictStringRPDAC`: one DAC access and one
+expansion per `next`) yields exactly the members in ID order, over any grammar and sequences that represent
+the dictionary; it never reads a position past the list. -/
+theorem rpdac_table_scan_exact (d : RPDAC.D) (S : List Str) (r : RPDAC.Represents d S) :
+    RPDAC.extractTable d = some (S.map RPDAC.bytesNat) := RPDAC.extractTable_represents d S r
 
 end CSD.Props.C13
